@@ -551,6 +551,15 @@ def run_impl(case):
     return res
 
 
+def giveup_plausible(case):
+    """can 20 rejection rounds of one parameter row stay empty? (the filters accept the fraction fp of every tagging domain,
+    which are unions of whole periods of the filter)"""
+    for lf in leaves_of(case["s"]):
+        if lf["k"] == "leaf" and lf["filt"] and (1.0 - lf.get("fp", 0.75)) ** (20 * lf["n"]) >= 1e-9:
+            return True
+    return False
+
+
 def wants_float64(case):
     return (case["k"] > 0 and case.get("pdtype") == "float64") or any(
         lf["k"] == "data" and lf.get("dt") == "float64" for lf in leaves_of(case["s"]))
@@ -566,7 +575,11 @@ def oracles(case, res):
         return fails  # append of unequal samples is outside the contract (the code raises)
     if "error" in res:
         if "could not find a single" in res["error"]:
-            return fails    # documented outcome of a filter that accepted nothing in 20 rounds
+            if giveup_plausible(case):
+                return fails    # documented outcome of a filter that accepted nothing in 20 rounds
+            return [f"sample_points with {case['k']} parameter rows gave up ({res['error'][:90]}) although, with the acceptance "
+                    "rate of its filters and its n, 20 rounds of one row without a single accepted proposal have probability < 1e-9 "
+                    "(rounds of other parameter rows must not count)"]
         return [f"sample_points with {case['k']} parameter rows failed: {res['error']}"]
     per_param = slen(s)
     exp_vars = svars(s) + (case["pvars"] if k else [])
@@ -652,6 +665,7 @@ class Gen:
     def __init__(self, rng):
         self.rng = rng
         self.nid = 0
+        self.n_choices = [1, 1, 2, 2, 3, 4, 5, 6, 9, 17, 24]
 
     def new_id(self):
         self.nid += 1
@@ -720,7 +734,7 @@ class Gen:
                 mdeps = [x for x in ext if rng.random() < 0.7] or ext[:1]
                 d = dict(k="Tr", d=d, id=self.new_id(), deps=mdeps, coef={},
                          coefv={v: {x: MOTION_COEF[x] for x in mdeps}, w: {x: MOTION_COEF_B[x] for x in mdeps}})
-        n = n or rng.choice([1, 1, 2, 2, 3, 4, 5, 6, 9, 17])
+        n = n or rng.choice(self.n_choices)
         if filt:
             n = min(n, 6)
         lf = dict(k="leaf", kind=kind, d=d, n=n, filt=filt)
@@ -843,8 +857,11 @@ def needs_ext(s):
 
 def gen_case(rng, idx):
     g = Gen(rng)
-    k = rng.choice([0, 0, 1, 1, 2, 2, 3, 3, 5, 7])
+    k = rng.choice([0, 0, 1, 1, 2, 2, 3, 3, 5, 7, 7, 20, 33])
     pvars = [] if k == 0 else rng.choice([["t"], ["t"], ["t", "D"], ["D"]])
+    if k > 8:
+        pvars = ["t"]          # distinct values 1..40 keep the tags inside float32 resolution
+        g.n_choices = [1, 1, 2, 3]
     avail = {w: True for w in pvars}
     vpool = list(SAMPLED)
     rng.shuffle(vpool)
@@ -858,7 +875,7 @@ def gen_case(rng, idx):
     if k:
         pdtype = rng.choice(["float32", "float32", "float64"])
         frac = 0.1 if pdtype == "float64" else 0.0
-        cols = [rng.sample(range(1, 9), k) for _ in pvars]
+        cols = [rng.sample(range(1, 9 if k <= 8 else 41), k) for _ in pvars]
         pvals = [[float(c[i]) + frac for c in cols] for i in range(k)]
     for lf in leaves_of(s):
         if lf["k"] == "data" and rng.random() < 0.35:
@@ -901,6 +918,60 @@ def gen_special(rng):
     return dict(kind="sample", special=what, k=k, pvars=pvars, pvals=pvals, pdtype=pdtype, s=lf, tseed=rng.randint(0, 10 ** 6))
 
 
+def gen_cross(rng):
+    """feature interactions: every leaf kind x filter x MANY parameter rows (>= 20: explicit rows, or the first factor of a
+    product with a grid / data / random partner of >= 20 points) x small n x kind of domain node"""
+    g = Gen(rng)
+    g.n_choices = [1, 1, 2, 3]
+    kind = rng.choice(["u", "u", "u", "g", "g", "n", "l", "e", "at", "ar"])
+    source = "explicit" if kind in ("at", "ar") else rng.choice(["explicit", "grid-partner", "data-partner", "random-partner"])
+    k = rng.choice([20, 26, 33]) if source == "explicit" else rng.choice([0, 1, 2])
+    pvars = ["t"] if k else []
+    vpool = list(SAMPLED)
+    rng.shuffle(vpool)
+    avail = {w: True for w in pvars}
+    partner = None
+    if source != "explicit":
+        m = rng.choice([20, 24, 31])
+        w = vpool.pop(0)
+        if source == "data-partner":
+            partner = dict(k="data", v=w, id=g.new_id(), m=m)
+        else:
+            partner = simple_leaf(g, w, "g" if source == "grid-partner" else "u", (), m)
+            avail[w] = True
+    v = vpool.pop(0)
+    d = g.dom(v, avail, kind="u" if kind in ("at", "ar") else kind)
+    filt = kind in ("u", "g", "at", "ar") and rng.random() < 0.6 and first_prim(d)["k"] == "I" and not has_bd(d)
+    if kind == "g" and has_bd(d):
+        kind = "u"
+    lf = dict(k="leaf", kind=kind, d=d, n=rng.choice([1, 1, 2, 3]), filt=filt)
+    if filt:
+        lf["fp"] = rng.choice([0.75, 0.3])
+    if kind == "e" and rng.random() < 0.5:
+        lf["ex"] = 0.5
+    s = lf if partner is None else dict(k="*", a=g.maybe_static(lf, 0.1), b=partner)
+    fix_bool_ids(d)
+    pvals, pdtype = [], "float32"
+    if k:
+        pdtype = rng.choice(["float32", "float64"])
+        frac = 0.1 if pdtype == "float64" else 0.0
+        vals = rng.sample(range(1, 41), k)
+        pvals = [[float(x) + frac] for x in vals]
+    return dict(kind="sample", special="cross:" + source, k=k, pvars=pvars, pvals=pvals, pdtype=pdtype, s=s,
+                tseed=rng.randint(0, 10 ** 6))
+
+
+def rows_handed(s, kin):
+    """[(leaf, number of parameter rows it is called with)]"""
+    if s["k"] in ("leaf", "data"):
+        return [(s, kin)]
+    if s["k"] == "T":
+        return rows_handed(s["s"], kin)
+    if s["k"] == "*":
+        return rows_handed(s["b"], kin) + rows_handed(s["a"], slen(s["b"]) * max(1, kin))
+    return rows_handed(s["a"], kin) + rows_handed(s["b"], kin)
+
+
 def total_rows(case):
     return slen(case["s"]) * max(1, case["k"])
 
@@ -908,7 +979,7 @@ def total_rows(case):
 def gen_cases(ctx):
     rng = ctx.rng
     cases, i = [], 0
-    want = ctx.scale(700, 7000)
+    want = ctx.scale(620, 6200)
     while len(cases) < want:
         i += 1
         c = gen_case(rng, i)
@@ -919,6 +990,10 @@ def gen_cases(ctx):
     while len(special) < ctx.scale(70, 700):
         c = gen_special(rng)
         if total_rows(c) <= 520:
+            special.append(c)
+    while len(special) < ctx.scale(70, 700) + ctx.scale(90, 900):
+        c = gen_cross(rng)
+        if total_rows(c) <= 400:
             special.append(c)
     return cases + special + finding_probes(rng)
 
@@ -1185,6 +1260,10 @@ def histogram(rep, case):
         for x in ("a", "b", "d"):
             if x in d:
                 dwalk(d[x])
+    for lf, kin in rows_handed(s, case["k"]):
+        b = "0" if kin == 0 else "1" if kin == 1 else "2-7" if kin < 8 else "8-19" if kin < 20 else ">=20"
+        name = "data" if lf["k"] == "data" else lf["kind"] + ("+filter" if lf["filt"] else "")
+        rep.count(f"rows handed to leaf {name}: {b}")
     dp = walk(s, 0)
     rep.count(f"depth={dp}")
     if s["k"] == "*" and case["k"] > 0:
@@ -1319,7 +1398,7 @@ def judge(rep, case, res, reply):
     else:
         model = "err" if reply.startswith("err:") else reply
         rep.count("model-" + reply.split(" ")[0])
-    if "error" in res and "could not find a single" in res["error"]:
+    if "error" in res and "could not find a single" in res["error"] and giveup_plausible(case):
         # the documented give-up of a filter loop (20 rounds without a valid point) = the model's `err:no-valid` for an
         # oracle that rejects everything; nothing to compare
         rep.count("filter loop gave up (documented RuntimeError)")
